@@ -69,7 +69,7 @@ def parseArg (t : String) : Option Arg :=
         | none => some (.s (if v == "~" then "" else v))
     else if k == "u" then some (match v.toNat? with | some n => .u n | none => .badnum)
     else if k == "b" then some (.b (v == "1"))
-    else if k == "x" || k == "f" then some (.s v)      -- bytes / float arguments: opaque to the model
+    else if k == "x" || k == "f" || k == "ibtp" || k == "addrs" then some (.s v)      -- bytes / float arguments: opaque to the model
     else if k == "i" then some (match parseInt? v with | some n => .i n | none => .badnum)
     else none
   | _ => none
